@@ -2,10 +2,21 @@
   C03 — Recovery always restores a fully usable, writable WAL.
 -/
 import RaftWal.Proofs.SegmentTorn
+import RaftWal.Proofs.SegmentChainCor
 import RaftWal.Proofs.WalRefine
 import RaftWal.Proofs.CrashCorollaries
 namespace RaftWal.C03
 open RaftWal
+
+/-- **recovery never fails along a chain, and what it leaves takes the next append** (byte level, any number of
+    tear / recover / restart / append cycles — `ChainEv`, Props/C02): the chain followed by one more acknowledged append
+    runs without error and the file then holds that batch too; the alternative is an explicit CRC-32C collision -/
+theorem recovery_total_and_writable_any_chain (info : SegInfo) (evs : List ChainEv) (b : List Bytes)
+    (hwf : ChainWF info (evs ++ [.append b])) :
+    ChainCollision info (evs ++ [.append b]) ∨
+      ∃ w file bs, chainRun info (freshSegment info) (evs ++ [.append b]) = .ok (w, file) ∧ b ∈ bs
+        ∧ ChainResult info (evs ++ [.append b]) w file bs :=
+  RaftWal.chain_recovery_total info evs b hwf
 
 /-- **tail recovery is total on crash images**: for every torn in-flight append after at least one acknowledged
     batch, `recoverTail` returns a writer (never an error) -/
